@@ -5,14 +5,46 @@ PID = "C16"
 FUNCS = ["pyrex.ice_model.AntarcticIce.__init__", "pyrex.ice_model.AntarcticIce.index",
          "pyrex.ice_model.AntarcticIce.gradient", "pyrex.ice_model.AntarcticIce.depth_with_index",
          "pyrex.ice_model.AntarcticIce.contains", "pyrex.ice_model.AntarcticIce.index_above",
-         "pyrex.ice_model.AntarcticIce.index_below",
+         "pyrex.ice_model.AntarcticIce.index_below", "pyrex.ice_model.AntarcticIce.temperature",
+         "pyrex.ice_model.AntarcticIce._atten_coeffs", "pyrex.ice_model.AntarcticIce.attenuation_length",
          "pyrex.ice_model.UniformIce.__init__", "pyrex.ice_model.UniformIce.index",
-         "pyrex.ice_model.UniformIce.gradient", "pyrex.ice_model.UniformIce.depth_with_index"]
+         "pyrex.ice_model.UniformIce.gradient", "pyrex.ice_model.UniformIce.depth_with_index",
+         "pyrex.ice_model.ArasimIce.attenuation_length", "pyrex.ice_model.GreenlandIce.__init__",
+         "pyrex.ice_model.GreenlandIce.temperature", "pyrex.ice_model.GreenlandIce.attenuation_length",
+         "pyrex.custom.layered_ice.ice_model.LayeredIce.__init__",
+         "pyrex.custom.layered_ice.ice_model.LayeredIce.layer_at_depth",
+         "pyrex.custom.layered_ice.ice_model.LayeredIce.index",
+         "pyrex.custom.layered_ice.ice_model.LayeredIce.contains",
+         "pyrex.custom.layered_ice.ice_model.LayeredIce.boundaries",
+         "pyrex.custom.layered_ice.ice_model.LayeredIce.index_above",
+         "pyrex.custom.layered_ice.ice_model.LayeredIce.index_below"]
 
 
 def setup(rep):
     runner.hash_functions(rep, FUNCS)
-    rep.min_obligations = 10
+    rep.min_obligations = 60
+    rep.clause("index-scalar", "P", "index(z) is n0-k*exp(a z) inside the valid range and the declared (or edge) "
+               "indices above/below, for symbolic n0,k,a,range (all exponential models)")
+    rep.clause("index-array-equals-scalar", "P", "index(array)[i] == index(array[i]) for every i and every length")
+    rep.clause("index-increases-with-depth", "P", "dn/dz < 0 and n(z2) > n(z) for z2 < z inside the range")
+    rep.clause("gradient-is-derivative", "P", "gradient(z) == (0, 0, d index/dz) (symbolic differentiation, A13)")
+    rep.clause("inverse", "P", "depth_with_index(index(z)) == z over the reals; clamps to the range edges outside")
+    rep.clause("inverse-near-asymptote", "N", "float saturation of log near n0 (depth_with_index(n0) = -inf) is "
+               "outside the real-number model; the property excludes it")
+    rep.clause("attenuation-shapes", "P", "attenuation_length is > 0 for f > 0 and depth in [-3000, 0]; scalar/row/column/matrix "
+               "results have the documented lengths and every entry equals the scalar evaluation "
+               "(AntarcticIce, GreenlandIce, ArasimIce, UniformIce)")
+    rep.clause("layered-dispatch", "B", "LayeredIce sorts layers top-down, layer_at_depth returns the layer containing "
+               "the depth (half-open, bottom edge inclusive), index delegates to it, above/below fall back, "
+               "gaps are reported - proved for symbolic boundaries with 1, 2, 3 layers")
+    rep.clause("finite", "N", "finiteness in floating point (overflow of exp/pow) is outside the real-number model")
+    rep.bounded.append("LayeredIce: number of layers in {1,2,3}; layer models are UniformIce with symbolic index")
+    rep.assume("A1 floats are mathematical reals; numpy scalar types behave as Python numbers")
+    rep.assume("A2 ground axiom instances for exp/log/rpow (pyvc/reals.py) are true statements about the real functions")
+    rep.assume("A5 numpy element-wise operations, masks, broadcasting, np.full/zeros/broadcast_to as specified in pyvc/npspec.py, pyvc/arrays.py")
+    rep.assume("A5 scipy.interpolate.interp1d(kind=linear, fill_value='extrapolate') is the piecewise-linear interpolant with linear extrapolation")
+    rep.assume("A13 symbolic differentiation rules of pyvc/reals.py:deriv")
+    rep.assume("attenuation positivity is proved for depths in [-3000, 0] m (the union of the shipped valid ranges)")
 
 
 def run(tier="quick", seed=0, only=None, verbose=False):
